@@ -98,11 +98,11 @@ func convTarget(info *types.Info, e ast.Expr) string {
 // isLocal reports whether e is an identifier denoting the local variable named name.
 func isLocal(info *types.Info, e ast.Expr, name string) bool {
 	id, ok := ast.Unparen(e).(*ast.Ident)
-	if !ok || id.Name != name {
+	if !ok {
 		return false
 	}
 	v, ok := core.ObjOf(info, id).(*types.Var)
-	return ok && !v.IsField()
+	return ok && !v.IsField() && (core.CanonName(v) == name || id.Name == name)
 }
 
 // sameObj: both expressions are identifiers/selectors of the same object.
